@@ -131,6 +131,9 @@ func genXport(r *rng, seed uint64, focus, arm string) *plan.Plan {
 				act.Arg = r.intn(3)
 			case 2:
 				act.Kind = "silent"
+			case 3:
+				act.Kind = "reply_many"
+				act.Arg = r.rng(3, 6)
 			}
 		case "C06":
 			// one reply per query is the precondition; vary timing only, plus aborts
